@@ -146,10 +146,16 @@ def run(ctx):
                     okshape = True
         ctx.check(okshape, "C01.4", "%s:suffix-order" % A.short(key), "candidates are labels[i..] for i = 0, 1, .. (longest suffix first)",
                   "zone/nameserver candidates are not enumerated from the longest suffix", g.loc())
-        # first hit returns from inside the loop
-        somes = [b for b, e in A.return_exprs(g, gr) if A.peel(e)[0] == "agg" and A.peel(e)[2] == "Some"]
+        # the first hit ends the search: once the look-up for a candidate succeeded, the loop is not re-entered
         loop_blocks = set().union(*[body for _, body in g.loops()]) if g.loops() else set()
-        ok = bool(somes) and all(not (g.reachable(b) & loop_blocks - {b}) for b in somes)
+        if key.endswith("Zones::get"):
+            hit = gc.edges_where(lambda fc: fc[0] == "is" and fc[1] == "Some" and A.peel(fc[2])[0] == "call" and A.peel(fc[2])[1].endswith("HashMap::<K, V, S, A>::get")
+                                 and A.path_str(A.peel(fc[2])[2][0]) == "param1.zones")
+            hit = [(a, s_) for a, s_ in hit if a in loop_blocks]
+            ok = bool(hit) and all(not (A.reachable_tagged(g, s_) & {h_ for h_, _ in g.loops()}) for a, s_ in hit)
+        else:
+            somes = [b for b, e in A.return_exprs(g, gr) if A.peel(e)[0] == "agg" and A.peel(e)[2] == "Some"]
+            ok = bool(somes) and all(not (g.reachable(b) & loop_blocks - {b}) for b in somes)
         ctx.check(ok, "C01.4", "%s:first-hit-returns" % A.short(key), "the first match leaves the loop",
                   "a match does not end the search (a shorter suffix could override it)", g.loc())
     zg = prog.fn(Z + "Zones::get")
